@@ -264,6 +264,69 @@ def rule_id(ctx, rep):
                                    "behaviour may depend on letter case")
 
 
+def rule_nametext(ctx, rep, rid="R-C08-nametext"):
+    """`name.to_string()` is the spelling as written (Display prints Id.original).  In the analyzer that text is for people: it goes into the
+    context of a diagnostic.  Anything else done with it - a sort key, a comparison, a table key, a value handed back to a caller - makes a
+    decision depend on letter case (`(RUN, idle, run)` sorted by spelling puts `idle` between the two spellings of one name)."""
+    r = rep.rule(rid, "in the analyzer the display text of a name (to_string of an Id, Type or VariableIdentifier) is only handed to diagnostic context "
+                      "(with_context*): it is no sort key, no comparison operand, no table key and no result", floor=3, floor_what="name-to-text conversions in the analyzer")
+    NAMES = ("ironplc_dsl::core::Id", "ironplc_dsl::common::Type", "ironplc_dsl::common::VariableIdentifier")
+    PASS = {"as_str", "deref", "borrow", "as_ref", "clone", "to_owned", "into", "to_string", "as_mut_str"}
+    SINK = {"with_context", "with_context_id", "with_context_type", "problem", "span", "with_secondary", "new_display", "new_debug", "trace", "debug", "info", "warn", "error", "log"}
+    n = 0
+    for b in sorted(ctx.prog.bodies.values(), key=lambda x: x.id):
+        if b.f["crate"] != "ironplc_analyzer" or "::test" in norm(b.id) or b.f.get("exp"):
+            continue
+        k = 0
+        for c in sorted(b.calls(), key=lambda c: (c.loc[0], c.loc[1])):
+            if not ((c.callee or c.u or "").endswith("ToString>::to_string") or (c.u or "") == "alloc::string::ToString::to_string"):
+                continue
+            ga = re.sub(r"[\[\]&\s]|'\{?\w+\}?", "", c.ga or "")
+            if ga not in NAMES:
+                continue
+            n += 1
+            k += 1
+            fn = norm(b.id).replace("ironplc_analyzer::", "")
+            inst = "%s|to_string of %s#%d" % (fn, ga.split("::")[-1], k)
+            bad = []
+            work, seen = [c.dest[0]], set()
+            while work:
+                l = work.pop()
+                if l in seen:
+                    continue
+                seen.add(l)
+                if l == 0:
+                    bad.append("returned (to a caller that decides with it: a sort key, a map)")
+                    continue
+                for i_, j_, st in b.all_stmts():
+                    if st[0] == "=" and not st[1][1] and st[2][0] in ("use", "ref", "cast"):
+                        src = op_place(st[2][1]) if st[2][0] == "use" else (st[2][2] if st[2][0] == "ref" else op_place(st[2][2]))
+                        if src is not None and src[0] == l:
+                            work.append(st[1][0])
+                    elif st[0] == "=" and st[2][0] == "agg" and any(op_place(o) is not None and op_place(o)[0] == l for o in st[2][2]):
+                        if isinstance(st[2][1], dict) and st[2][1].get("k") in ("tuple", "array"):
+                            work.append(st[1][0])       # the argument pack of format_args!
+                        else:
+                            bad.append("stored in %s" % (st[2][1].get("adt") or st[2][1].get("k") if isinstance(st[2][1], dict) else "a value"))
+                for c2 in b.calls():
+                    if not any(op_place(a) is not None and op_place(a)[0] == l for a in c2.args):
+                        continue
+                    nm = (c2.callee or c2.u or "?").split("::")[-1]
+                    if nm in SINK or "fmt::Arguments" in (c2.callee or "") or "fmt::rt::Argument" in (c2.callee or "") or (c2.callee or "").startswith("log::"):
+                        if nm in ("new_display", "new_debug") or "Arguments" in (c2.callee or ""):
+                            work.append(c2.dest[0])     # formatted into a message: follow the message
+                        continue
+                    if nm in PASS or nm in ("format", "must_use"):
+                        work.append(c2.dest[0])
+                        continue
+                    bad.append("handed to %s" % nm)
+            if bad:
+                r.finding(inst + "|" + bad[0].split(" (")[0].replace(" ", "-"), loc_str(b.f, c.loc), "the spelling of a name as written is %s: identifiers that differ in letter case only are "
+                          "told apart there" % "; ".join(sorted(set(bad))))
+            else:
+                r.ok(inst, loc_str(b.f, c.loc), "only into the context of a diagnostic")
+
+
 KEY_RX = re.compile(r"(HashMap|HashSet|BTreeMap|BTreeSet|SymbolTable|Scope|IndexMap|IndexSet)<")
 ALLOWED_KEYS = {"ironplc_dsl::core::Id", "ironplc_dsl::common::Type", "&ironplc_dsl::core::Id", "&ironplc_dsl::common::Type",
                 "petgraph::graph_impl::NodeIndex", "petgraph::graph_impl::NodeIndex<u32>", "ironplc_dsl::core::FileId", "&ironplc_dsl::core::FileId",
@@ -597,6 +660,7 @@ def run(ctx, rep):
     rule_text(ctx, rep)
     rule_id(ctx, rep)
     rule_keys(ctx, rep)
+    rule_nametext(ctx, rep)
     rule_pipe(ctx, rep)
     rule_rawtext(ctx, rep)
     rule_prestep(ctx, rep)
